@@ -469,3 +469,46 @@ Section Loaders.
     exists calls. split; [rewrite A; reflexivity|]. apply B. left. reflexivity.
   Qed.
 End Loaders.
+
+(* ---- non-vacuity: the example archive of ScanTrunc through both loaders, both paths ------------------ *)
+Definition ex_b1 : block := (ex_cid1, [x61; x62]).
+Definition ex_b2 : block := (ex_cid2, [x63]).
+Definition ex_cut : bytes :=
+  take (blen (enc_payload [ex_cid1] ex_blocks) - 1) (enc_payload [ex_cid1] ex_blocks).
+
+Example ex_load_slow_intact :
+  carv1_load ex_hok dec_header_canon false None (enc_payload [ex_cid1] ex_blocks)
+  = mkload [[ex_b1]; [ex_b2]] (Ok [ex_cid1]).
+Proof. vm_compute. reflexivity. Qed.
+Example ex_load_fast_intact :
+  root_load ex_hok dec_header_canon true None (enc_payload [ex_cid1] ex_blocks)
+  = mkload [[ex_b1; ex_b2]] (Ok [ex_cid1]).
+Proof. vm_compute. reflexivity. Qed.
+(* a cut inside the second section: the slow path has stored the first block, the fast path nothing;
+   both return the reader's error *)
+Example ex_load_slow_cut :
+  root_load ex_hok dec_header_canon false None ex_cut = mkload [[ex_b1]] (Err EUnexpectedEof).
+Proof. vm_compute. reflexivity. Qed.
+Example ex_load_fast_cut :
+  carv1_load ex_hok dec_header_canon true None ex_cut = mkload [] (Err EUnexpectedEof).
+Proof. vm_compute. reflexivity. Qed.
+(* a failing store call ends the load with the store's error *)
+Example ex_load_store_fault :
+  root_load ex_hok dec_header_canon false (Some 1) (enc_payload [ex_cid1] ex_blocks)
+  = mkload [[ex_b1]; [ex_b2]] (Err EOther).
+Proof. vm_compute. reflexivity. Qed.
+Example ex_load_corrupt :
+  carv1_load ex_hok dec_header_canon false None
+    (ld (enc_header (Some [ex_cid1]) 1) ++ enc_sections [ex_b1] ++ enc_section ex_cid2 [x64] ++ [])
+  = mkload [[ex_b1]] (Err EOther).
+Proof. vm_compute. reflexivity. Qed.
+(* the batching of the fast path, with a batch limit of 1: PutMany as soon as the buffer holds 2 *)
+Example ex_load_fast_batches :
+  load_loop (next_block ex_hok default_ropts) None 1 true (enc_sections [ex_b1; ex_b2; ex_b1])
+  = ([[ex_b1; ex_b2]; [ex_b1]], Ok tt).
+Proof. vm_compute. reflexivity. Qed.
+Example ex_load_fast_batches_cut :
+  load_loop (next_block ex_hok default_ropts) None 1 true
+    (enc_sections [ex_b1; ex_b2; ex_b1] ++ [x05; x01])
+  = ([[ex_b1; ex_b2]], Err EUnexpectedEof).
+Proof. vm_compute. reflexivity. Qed.
